@@ -175,6 +175,7 @@ class C20(Scenario):
             "apply": 6,
             "applyreal": 2 if arm != "real-algs" else 6,
             "regrule": 1,
+            "dropalg": 0.7,
             "mkreal": 1 if arm != "real-algs" else 3,
             "applyinst": 1 if arm != "real-algs" else 7,
         }
@@ -361,6 +362,18 @@ class C20(Scenario):
                     # the passes every form goes through on its way to a form compiler
                     alg = rng.choice(["apply_algebra_lowering", "expand_derivatives", "estimate_degree", "remove_complex_nodes", "renumber_indices", "apply_geometry_lowering"])
                 units.append({"n": 0, "k": "applyreal", "op": ["applyreal", None, alg, e]})
+            elif k == "dropalg":
+                # an algorithm class and its instances go away (short-lived, locally defined
+                # classes are common); later classes may be allocated at the same address
+                leaf = [c for c in classes if not any(u2["k"] == "defalg" and u2["op"][5] == ["$", c[0]] for u2 in units)]
+                if not leaf:
+                    continue
+                c = rng.choice(leaf)
+                gone = [a[0] for a in algs if a[1] == c[0]]
+                units.append({"n": 0, "k": "dropalg", "op": ["drop", None, [c[0]] + gone]})
+                units.append({"n": 0, "k": "gc", "op": ["gc", None]})
+                classes = [x for x in classes if x[0] != c[0]]
+                algs = [a for a in algs if a[1] != c[0]]
             elif k == "regrule":
                 dts = [c for c in classes if c[1] == "DT"]
                 if not dts or not types:
